@@ -8,9 +8,10 @@
 (*   the calls through the contract Apply (C07), no identifier may stay     *)
 (*   locked (C08), TLC's deadlock check covers termination (C08), and an    *)
 (*   object only ever appears / disappears by a single rename (C09).        *)
-(* The known finding K1 is a behaviour of this model; it is characterised   *)
-(* by K1Shape and excluded from the linearizability invariant so that any   *)
-(* OTHER non-linearizable behaviour is reported.                            *)
+(* (Before the repair of K1 - a store whose object was removed by a         *)
+(* concurrent deleter before tagging - that behaviour was a behaviour of    *)
+(* this model too; K1Shape characterises it.  With the repair modelled,     *)
+(* TLC verifies StrictLinearizable.)                                        *)
 (***************************************************************************)
 EXTENDS FileHashStore, Json, IOUtils
 
@@ -63,5 +64,5 @@ ReaderSafe == \A th \in Thread :
                                                             /\ Job[w].op \in {"store", "tag"}}}
 
 \* the event history variable does not influence behaviour: hide it from the fingerprint
-ViewNoEv == <<pc, obj, pref, cref, doc, mark, keep, locked, waitq, woken, result, rdata, stack, vtb_, vid_, vtb, vid, vp_, vc_t, va_, vb_, vout, vmade, vrp, vrl_, vp_s, vc_s, vx_, vc, vb_d, vx_d, vp_d, vc_, vcls, vrl_d, va_d, vb_de, vx_de, vdels, vdocs, vf_, vp_de, vtodo, vkeepl, vmarked, ve, vp_p, vf_p, vver, vp_g, vf_g, vx_g, vp_del, vf, vx_del, vp_delm, vp, vc_r, vrl, va, vb, vx>>
+ViewNoEv == <<pc, obj, pref, cref, doc, mark, keep, locked, waitq, woken, result, rdata, stack, vtb_, vid_, vtb, vid, vp_, vc_t, va_, vb_, vout, vmade, vrp, vrl_, vp_s, vc_s, vval, vx_, vc, vb_d, vx_d, vp_d, vc_, vcls, vrl_d, va_d, vb_de, vx_de, vdels, vdocs, vf_, vp_de, vtodo, vkeepl, vmarked, ve, vp_p, vf_p, vver, vp_g, vf_g, vx_g, vp_del, vf, vx_del, vp_delm, vp, vc_r, vrl, va, vb, vx>>
 =============================================================================
